@@ -771,3 +771,11 @@ func (c *Cluster) GroupState(group string) (string, int32) {
 	}
 	return g.State, g.Generation
 }
+
+// PartitionUnlocked and BrokerUnlocked give access to the cluster state to a
+// caller that holds the cluster lock (Lock/Unlock).
+func (c *Cluster) PartitionUnlocked(topic string, id int32) *Partition {
+	return c.partitionLocked(topic, id)
+}
+
+func (c *Cluster) BrokerUnlocked(id int32) *Broker { return c.brokers[id] }
